@@ -411,6 +411,24 @@ def _(p):
     return None if len(out) == p["df"] else f"wrong-column-count: bs(df={p['df']}) gave {len(out)} columns"
 
 
+@replay("c13_quoted_pair")
+def _(p):
+    import pandas
+    from formulaic import model_matrix
+
+    u, v = numpy.array(p["u"], dtype=float), numpy.array(p["v"], dtype=float)
+    if len(set(u)) < 3 or len(set(v)) < 3:
+        return None
+    mm = model_matrix("0 + scale(`x 1`) + scale(`x-1`) + center(`x-1`)", pandas.DataFrame({"x 1": u, "x-1": v}), output="numpy")
+    m = numpy.asarray(mm, dtype=float)
+    want = numpy.stack([(u - u.mean()) / u.std(ddof=1), (v - v.mean()) / v.std(ddof=1), v - v.mean()], axis=1)
+    if m.shape != want.shape or not numpy.allclose(m, want, rtol=1e-9, atol=1e-9):
+        return f"shared-state: scale(`x 1`) + scale(`x-1`) + center(`x-1`) gives {m.tolist()}, each column standardised on its own data is {want.tolist()}"
+    if len(mm.model_spec.transform_state) != 3:
+        return f"shared-state: {len(mm.model_spec.transform_state)} recorded states for three stateful calls: {list(mm.model_spec.transform_state)}"
+    return None
+
+
 @replay("c13_scale_float")
 def _(p):
     from formulaic.transforms import center, poly, scale
